@@ -7,11 +7,10 @@
 From Coq Require Import List Arith ZArith Bool Reals Lra Lia.
 From T4V Require Import Base.Scalar.
 From T4V Require C06.Model C06.ProofsIndex C06.ProofsNumeric C06.ProofsDevelop.
-From T4V Require Import C07.Model C07.ProofsAlgebra C07.ProofsComb C07.ProofsMain C07.ProofsGeom.
+From T4V Require Import C07.Model C07.ModelDevelop C07.ProofsAlgebra C07.ProofsComb C07.ProofsMain C07.ProofsGeom.
 Import ListNotations.
 Open Scope R_scope.
 
-Module M6 := C06.Model.
 Module I6 := C06.ProofsIndex.
 Module D6 := C06.ProofsDevelop.
 
@@ -92,4 +91,14 @@ Proof.
   unfold D6.lattice_point. cbn.
   destruct a1 as [[x1 y1] z1], a2 as [[x2 y2] z2], a3 as [[x3 y3] z3].
   unfold M6.vadd, M6.rescale, vadd, vscale, vx, vy, vz; cbn. apply vec_eq; ring.
+Qed.
+
+(* the definition executed by tie:develophex at binary64 is, at RS, the
+   develop_lattice_hex of hex_lattice_developed *)
+Lemma develop_lattice_hex_is_gen (dic : Z -> list rsurf) (ids : list Z) (cell : M6.lat_cell (T:=R)) :
+  develop_lattice_hex_gen RS dic ids cell = develop_lattice_hex (extract_surfaces dic ids) cell.
+Proof.
+  unfold develop_lattice_hex_gen, develop_lattice_hex.
+  destruct (hexLatticeBaseVectors RS (extract_surfaces dic ids)) as [v|e]; [reflexivity|].
+  destruct e; reflexivity.
 Qed.
